@@ -19,7 +19,7 @@ Definition payload_ok (text : bytes) (e : error) : Prop :=
 
 Notation src_byte text x := (exists p, nth_N text p = Some x).
 Notation src_char text c :=
-  (exists p n, p < tlen text /\ (decode1 (skipn (N.to_nat p) text) = Some (c, n) \/ nth_N text p = Some c)).
+  (exists p n, p < tlen text%list /\ (decode1 (skipn (N.to_nat p) text%list) = Some (c, n) \/ nth_N text%list p = Some c)).
 
 (* ------------------------------------------------------------------ *)
 (** * Lists and substrings *)
@@ -213,9 +213,10 @@ Ltac pay_step :=
   | |- rinv _ _ (bind (match ?x with _ => _ end) _) => destruct x eqn:?; pay_fwd
   | |- rinv _ _ (bind (Ok _) _) => rewrite bind_Ok_l
   | |- rinv _ _ (bind (bind _ _) _) => rewrite bind_assoc
-  | |- rinv _ _ (bind _ _) =>
-    eapply rinv_bind; [ pay_tac | let a := fresh "a" in let Ha := fresh "Ha" in
-                                   intros a Ha; cbv beta in Ha; pay_norm ]
+  | |- rinv _ _ (bind ?r _) =>
+    first [ eapply rinv_bind; [ solve [pay_tac] | let a := fresh "a" in let Ha := fresh "Ha" in
+                                                  intros a Ha; cbv beta in Ha; pay_norm ]
+          | let h := pay_head r in unfold h ]
   | |- rinv _ ?P (Ok _) => tryif is_evar P then apply rinv_ok_eq else (apply rinv_ok; pay_post)
   | |- rinv _ ?P (Panic _) => tryif is_evar P then apply (rinv_panic _ _ (fun _ => False)) else apply rinv_panic
   | |- rinv _ ?P OutOfFuel => tryif is_evar P then apply (rinv_fuel _ _ (fun _ => False)) else apply rinv_fuel
@@ -229,8 +230,8 @@ Ltac pay_step :=
     else (apply rinv_err_from; intro; pay_payload)
   | |- rinv _ _ (match ?x with _ => _ end) => destruct x eqn:?; pay_fwd
   | |- rinv _ _ ?r =>
-    first [ solve [eauto with pay]
-          | solve [eapply rinv_weaken; [solve [eauto with pay] | intros; pay_norm; pay_post]]
+    first [ solve [eauto 10 with pay]
+          | solve [eapply rinv_weaken; [solve [eauto 10 with pay] | intros; pay_norm; pay_post]]
           | let h := pay_head r in unfold h ]
   end
 with pay_tac := repeat (progress cbv beta zeta || pay_step).
@@ -879,3 +880,134 @@ Lemma parse_next_chunk_rinv : forall text s es, sinv text s ->
   rinv text (fun x => sinv text (snd x)) (parse_next_chunk text s es).
 Proof. intros text s es H. unfold parse_next_chunk. pay_tac. Qed.
 #[export] Hint Resolve process_attribute_rinv process_cdata_rinv parse_next_chunk_rinv : pay.
+
+Lemma rev_removelast : forall (A : Type) (l : list A) x rest, rev l = x :: rest -> rev (removelast l) = rest.
+Proof.
+  intros A l x rest H. assert (E : l = rev rest ++ [x]).
+  { rewrite <- (rev_involutive l), H. reflexivity. }
+  subst l. rewrite removelast_last. apply rev_involutive.
+Qed.
+
+Lemma process_element_rinv : forall text e r c, ctx_inv text c ->
+  match e with EClose p l => qn_ok text p l | _ => True end ->
+  rinv text (ctx_inv text) (process_element text e r c).
+Proof.
+  intros text e r c H He. unfold process_element.
+  destruct (slice_len (tn_name (c_tag_name c)) =? 0). { destruct e; pay_tac. }
+  eapply rinv_bind; [apply resolve_namespaces_rinv; exact H|].
+  intros [nss c0] Hc0. cbn [snd] in Hc0. cbv beta iota zeta.
+  eapply rinv_bind; [apply resolve_attributes_rinv; eauto with pay|].
+  intros [attrs c1] Hc1. cbn [snd] in Hc1. cbv beta iota zeta.
+  destruct e as [|prefix local|].
+  - (* Open *)
+    eapply rinv_bind; [apply get_ns_idx_by_prefix_rinv|]. intros idx _. cbv beta.
+    eapply rinv_bind; [apply append_node_rinv; exact Hc1|].
+    intros [new_id c2] Hap. unfold appended in Hap. cbn [fst snd] in Hap.
+    destruct Hap as (Hc2 & Hpp & Hpid & Htn & nd' & Hn & Hp & Hl). cbv beta iota.
+    apply rinv_ok. destruct Hc2 as [Hq2 Hch2]. split; [exact Hq2|].
+    cbn [set_parent_prefixes set_parent_id c_doc c_parent_id c_parent_prefixes].
+    rewrite rev_unit. cbn [chain]. exists nd'. split; [exact Hn|]. split.
+    + intros l Hnl. apply Hl in Hnl. cbn [elem_local] in Hnl. inversion Hnl; subst l.
+      apply ctx_inv_tag. exact Hc1.
+    + rewrite Hp. rewrite <- Hpid. exact Hch2.
+  - (* Close *)
+    destruct (len_N (c_parent_prefixes c1) <=? c_entity_floor c1); [pay_tac|].
+    destruct (nth_N (d_nodes (c_doc c1)) (c_parent_id c1)) as [pnd|] eqn:Epnd;
+      [rewrite bind_Ok_l|pay_tac].
+    destruct (rev (c_parent_prefixes c1)) as [|pp rest] eqn:Erev; [pay_tac|rewrite bind_Ok_l].
+    destruct Hc1 as [Hq Hch]. rewrite Erev in Hch. cbn [chain] in Hch.
+    destruct Hch as (nd & Hnd & Hql & Hpar). rewrite Epnd in Hnd. inversion Hnd; subst nd. clear Hnd.
+    eapply rinv_bind;
+      [apply (upd_node_rinv text (d_nodes (c_doc c1))); [apply nodes_ext_refl|auto with pay]|].
+    intros nodes' Hext. cbv beta.
+    eapply rinv_bind with (Q := fun _ : unit => True).
+    { destruct (nd_kind pnd) eqn:Ek; try (apply rinv_ok; exact I).
+      match goal with |- rinv _ _ (if ?b then _ else _) => destruct b end; [|apply rinv_ok; exact I].
+      apply rinv_err_from. intro. cbn [payload_ok]. split.
+      - apply Hql. first [reflexivity | rewrite Ek; reflexivity].
+      - exact He. }
+    intros _ _. cbv beta zeta.
+    destruct (nd_parent pnd) as [pid|]; [|pay_tac].
+    match goal with |- rinv _ _ (match ?l with _ => _ end) => destruct l eqn:Erl end; [apply rinv_panic|].
+    apply rinv_ok. rewrite <- Erl. split; [exact Hq|].
+    cbn [set_parent_prefixes set_parent_id set_awaiting set_doc set_nodes c_doc c_parent_id
+         c_parent_prefixes d_nodes].
+    rewrite (rev_removelast _ _ _ _ Erev). eapply chain_ext; [exact Hext|exact Hpar].
+  - (* Empty *) pay_tac.
+Qed.
+#[export] Hint Resolve process_element_rinv : pay.
+
+(* ------------------------------------------------------------------ *)
+(** * Parse.v: the callback, the entity re-entry, parse *)
+
+Lemma token_with_rinv : forall text ptext,
+  (forall t r c, ctx_inv text c -> rinv text (ctx_inv text) (ptext t r c)) ->
+  forall tk c, tok_ok text tk -> ctx_inv text c -> rinv text (ctx_inv text) (token_with text ptext tk c).
+Proof.
+  intros text ptext Hp tk c Htk Hc. unfold token_with. destruct tk; cbn [tok_ok] in Htk; pay_tac.
+Qed.
+
+Lemma process_text_with_rinv : forall text pc,
+  (forall s c, sinv text s -> ctx_inv text c -> rinv text (fun x => ctx_inv text (snd x)) (pc s c)) ->
+  forall t r c, ctx_inv text c -> rinv text (ctx_inv text) (process_text_with text pc t r c).
+Proof.
+  intros text pc Hpc t r c Hc. unfold process_text_with. cbv zeta.
+  destruct (negb (existsb (fun x => (x =? 38) || (x =? 13)) (slice_bytes text t))); [pay_tac|].
+  eapply rinv_bind; [apply stream_from_substr_rinv|]. intros s0 Hs0. cbv beta.
+  match goal with |- context [?F (length (s_rest s0))] =>
+    assert (L : forall n s buf c, sinv text s -> ctx_inv text c ->
+                rinv text (fun x => ctx_inv text (snd x)) (F n s buf c)) end.
+  { induction n as [|n IHn]; intros s buf c' Hs Hc'; fix_step; pay_tac. }
+  pay_tac.
+Qed.
+
+Lemma parse_content_lvl_rinv : forall text lvl s c, sinv text s -> ctx_inv text c ->
+  rinv text (fun x => sinv text (fst x) /\ ctx_inv text (snd x)) (parse_content_lvl text lvl s c).
+Proof.
+  intros text lvl. induction lvl as [|lvl IH]; intros s c Hs Hc; cbn [parse_content_lvl].
+  - apply rinv_fuel.
+  - apply (parse_content_rinv text context _ (ctx_inv text)); [|exact Hs|exact Hc].
+    intros tok c0 Htok Hc0. apply token_with_rinv; [|exact Htok|exact Hc0].
+    intros t r c1 Hc1. apply process_text_with_rinv; [|exact Hc1].
+    intros s1 c2 Hs1 Hc2. eapply rinv_weaken; [apply IH; assumption|]. intros a Ha. exact (proj2 Ha).
+Qed.
+
+Lemma token_rinv : forall text tok c, tok_ok text tok -> ctx_inv text c ->
+  rinv text (ctx_inv text) (token text tok c).
+Proof.
+  intros text tok c Htok Hc. unfold token, process_text.
+  apply token_with_rinv; [|exact Htok|exact Hc].
+  intros t r c1 Hc1. apply process_text_with_rinv; [|exact Hc1].
+  intros s1 c2 Hs1 Hc2. eapply rinv_weaken; [apply parse_content_lvl_rinv; assumption|].
+  intros a Ha. exact (proj2 Ha).
+Qed.
+
+Lemma init_context_rinv : forall text opt, rinv text (ctx_inv text) (init_context text opt).
+Proof.
+  intros text opt. unfold init_context. cbv zeta.
+  eapply rinv_bind; [apply push_ns_rinv|]. intros d Hd. cbv beta. apply rinv_ok.
+  split.
+  - cbn [c_tag_name]. apply qn_ok_null.
+  - cbn [c_doc c_parent_id c_parent_prefixes rev app chain]. rewrite Hd. cbn [d_nodes].
+    eexists. split; [reflexivity|]. cbn [nd_kind nd_parent elem_local]. split; [discriminate|exact I].
+Qed.
+
+Lemma children_any_element_rinv : forall text fuel d it, rinv text (fun _ => True) (children_any_element fuel d it).
+Proof.
+  intros text fuel d. induction fuel as [|fu IH]; intros it; cbn [children_any_element]; pay_tac.
+Qed.
+#[export] Hint Resolve children_any_element_rinv : pay.
+
+Lemma parse_rinv : forall text opt, rinv text (fun _ => True) (parse text opt).
+Proof.
+  intros text opt. unfold parse.
+  eapply rinv_bind; [apply init_context_rinv|]. intros c0 Hc0. cbv beta.
+  eapply rinv_bind; [apply (parse_document_rinv text context _ (ctx_inv text)); [|exact Hc0]|].
+  { intros tok c Htok Hc. apply token_rinv; assumption. }
+  intros c Hc. pay_tac.
+Qed.
+
+Theorem parse_error_payload_from_source : forall text opt e,
+  valid_utf8_b text = true -> parse text opt = Err e -> payload_ok text e.
+Proof. intros text opt e _ H. exact (proj1 (parse_rinv text opt) e H). Qed.
+Print Assumptions parse_error_payload_from_source.
